@@ -24,6 +24,21 @@ type PFCPSession struct {
 	PacketForwardingRules
 }
 
+// clone returns a copy of the rules that shares no backing array with p.
+func (p PacketForwardingRules) clone() PacketForwardingRules {
+	c := PacketForwardingRules{
+		pdrs: append(make([]pdr, 0, MaxItems), p.pdrs...),
+		fars: append(make([]far, 0, MaxItems), p.fars...),
+		qers: append(make([]qer, 0, MaxItems), p.qers...),
+	}
+
+	for i := range c.pdrs {
+		c.pdrs[i].qerIDList = append([]uint32(nil), c.pdrs[i].qerIDList...)
+	}
+
+	return c
+}
+
 func (p PacketForwardingRules) String() string {
 	return fmt.Sprintf("PDRs=%v, FARs=%v, QERs=%v", p.pdrs, p.fars, p.qers)
 }
